@@ -22,7 +22,8 @@ from pathlib import Path
 VERIF = Path(__file__).resolve().parent.parent
 SPEC = VERIF / "spec"
 OUT = VERIF / "out"
-EVIDENCE = VERIF / "evidence"
+# evaluation of seeded changes (tools/eval_mutant.sh) writes its evidence elsewhere; registered commands never set this
+EVIDENCE = Path(os.environ["VERIF_EVIDENCE_DIR"]) if os.environ.get("VERIF_EVIDENCE_DIR") else VERIF / "evidence"
 FINDINGS_FILE = VERIF / "known_findings.json"
 TLA_JAR = "/opt/veriftools/tla/tla2tools.jar"
 TLA_DEPS = "/opt/veriftools/tla/CommunityModules-deps.jar"
